@@ -85,6 +85,28 @@ CLAIMED = {
             "trusted: pyvc, z3, cvc5",
             "contract-based deductive verification: VCs generated from the AST of the real functions and their SQL text, "
             "discharged by z3 / cvc5"),
+    "C17": ("proof",
+            "Deductive proof of the class invariant K (status always a member of the enum; an order that says it can be "
+            "cancelled / replaced has no request outstanding; a request id is remembered only while pending or after the "
+            "cancel; ids are root or root--j) and of per-method contracts on the real bodies of new_req / cancel_req / "
+            "replace_req (succeed exactly when permitted, FIXError otherwise with nothing changed, issue root--(counter+1) "
+            "which differs from every id issued before, OrigClOrdID = the id the order is live under, exactly one request "
+            "outstanding), process_execution_report, process_cancel_rej_report, can_cancel / can_replace / is_finished - for "
+            "every object state (unbounded counter, arbitrary root, quantities as reals). One genuine defect repaired (fix: "
+            "d2c3a24 cancel reject left a bare string status and the request ids in place, the next cancel_req tripped an "
+            "assert). The convergence sentence (status / quantities equal the exchange's at quiescence over all "
+            "interleavings) is a bounded stand-in against an exchange environment model - labelled bounded, not counted "
+            "as proved.",
+            "DESIGN.md 4/C17 and 9",
+            "bounded, not proved: convergence over interleavings (all interleavings up to 10 events + 300 seeded walks, "
+            "thorough 12 / 5000) against an exchange model written from the FIX 4.4 order state matrices; assumed: A-REPR "
+            "(float(str(x)) == x, what carries price / quantity over the wire), A-ROOT "
+            "(clord_root regular expression by contract), environment contracts on what an exchange reports (ExecType "
+            "Replaced only for a pending replace, pending statuses only for outstanding requests, cancel rejects report a "
+            "non-pending state), floats as reals (float(text) uninterpreted); engine cross-checked: path witnesses and counter-"
+            "models are re-executed on the real object under CPython 3.12 (family c17); trusted: pyvc, z3",
+            "contract-based deductive verification (class invariant + method contracts): VCs from the AST of the real "
+            "methods, discharged by z3; bounded exploration for the convergence sentence"),
     "C14": ("proof",
             "Rely / guarantee proof for cooperative scheduling on the real handlers: the shared invariant S (highest new "
             "number written = stored counter = next outbound number - 1, no journal row at or above it) is an obligation at "
@@ -94,7 +116,12 @@ CLAIMED = {
             "written before and to be journaled without a duplicate error; between taking the number and handing the frame "
             "to the transport send_msg has no suspension point. One sequential proof per handler covers all interleavings and "
             "any number of senders. _process_resend breaks S at its suspension points: genuine, replayed with a real second "
-            "sender, recorded as known finding C14-KF1 (redesign).",
+            "sender, recorded as known finding C14-KF1 (redesign). A transport fault at drain() (task "
+            "send_msg[transport_fault]) must leave S intact. Complement, labelled bounded and not counted as proved: a "
+            "controlled scheduler drives the real coroutines by hand through every schedule of 14 scenarios (2-4 tasks; "
+            "drain paused or not with FIFO wake-up, optional ConnectionResetError; hooks as scheduling points) and checks "
+            "the wire order, journal and stored counter at the end; it also supplies the failing schedule that is replayed "
+            "for a refuted obligation.",
             "DESIGN.md 4/C14 and 9",
             "assumed: A-COOP (tasks switch only at suspending awaits; which awaits suspend), the rely (other tasks only send "
             "new messages; a concurrent disconnect is C11's task), induction over the schedule not mechanised, application "
